@@ -50,6 +50,8 @@ void submit(int kind, int inner);
 
 void note_cancel() {
     VF_ASSERT(G->stop_requested, "C11 a job is cancelled only when the pool has been stopped");
+    // a cancellation handler may look at the pool (it is being stopped, not necessarily destroyed): this must neither block nor report a running pool
+    if (G->pool) VF_ASSERT(G->pool->is_stopped(), "C11 a cancelled job that asks the pool finds it stopped (and is not blocked by the stop() in progress)");
 }
 
 void check_workers_after_stop() {
